@@ -36,7 +36,7 @@ def check_run(spec):
     Wn = W / np.linalg.norm(W, axis=1)[:, None]
     eps = spec["eps"]
     if algo == "VOGP":
-        z, _, _ = geom.ldp(Wn, np.ones(len(Wn)))
+        z = geom.ldp_certified(Wn, np.ones(len(Wn)))
         s = eps * z / np.linalg.norm(z)
     else:
         s = np.full(m, float(eps))
@@ -117,7 +117,7 @@ def st_facetwise_spec(draw):
         m = 2
     W = gen.cone_W(cone)
     Wn = W / np.linalg.norm(W, axis=1)[:, None]
-    z, _, _ = geom.ldp(Wn, np.ones(m))
+    z = geom.ldp_certified(Wn, np.ones(m))
     eps = draw(st.sampled_from([0.1, 0.3]))
     s = eps * z / np.linalg.norm(z)
     Y = [[round(draw(st.floats(-0.3, 0.3)), 3) for _ in range(m)]]
